@@ -130,3 +130,15 @@ Definition sample_cfg_install_uncommitted : list item :=
 Example sample_cfg_install_uncommitted_rejected :
   run_hist [1; 2; 3] sample_cfg_install_uncommitted = HFail 10 1000.
 Proof. vm_compute. reflexivity. Qed.
+
+(* the connection breaks after the first of the two entries of the request:
+   node 2 has handled (and flushed) that entry only; the request is then
+   delivered again in full *)
+Definition sample_cfg_cut : list item :=
+  firstn 6 sample_cfg_history ++
+  [ ([ARecvCut 2 sm1 1], [(2, mkO 1 Follower [sn1] 1 0)]);
+    ([ARecv 2 sm1], [(2, mkO 1 Follower [sn1; sd5] 2 0)]);
+    ([AAck 1 2 2; ACommit 1 2 [1; 2]], [(1, mkO 1 Leader [sn1; sd5] 2 2)]) ].
+
+Example sample_cfg_cut_accepted : explain_all [1; 2; 3] sample_cfg_cut = [].
+Proof. vm_compute. reflexivity. Qed.
